@@ -40,13 +40,11 @@ m = {
         {"name": "emmyfacts", "path": "/verif/emmyfacts", "serves_properties": sorted(claimed),
          "kind_free_text": "rustc_private driver (nightly) run as RUSTC_WORKSPACE_WRAPPER under cargo check: MIR-lite of every body at mir_promoted + item facts (ADTs, impls, auto-trait results) as JSON lines"},
         {"name": "rules", "path": "/verif/rules", "serves_properties": sorted(claimed),
-         "kind_free_text": "Python rule library over the facts: CFG dominance / must-pass-through, write-set and taint dataflow, call-graph reachability, table agreement"},
-        {"name": "synscan", "path": "/verif/synscan", "serves_properties": ["C21", "C24", "C27"],
-         "kind_free_text": "syn-based token scanner for facts that do not survive macro expansion (t! placeholders, dispatch macro tables)"},
+         "kind_free_text": "Python rule library over the facts: CFG dominance / must-pass-through, write-set and taint dataflow, provenance, bounds facts, typestate, call-graph reachability, table agreement; the thorough tier additionally replays the seeded changes of /verif/seeded against the check (private copy of the tree) and fails if one it used to report is no longer reported"},
     ],
     "checks": checks,
     "not_applicable": na,
-    "notes": "Static analysis only; every check decides a structural clause of its property from the current /repo sources (see level_note for what is and is not decided). Known genuine defects are listed in /verif/known_findings.json.",
+    "notes": "Static analysis only; every check decides a structural clause of its property from the current /repo sources (see level_note for what is and is not decided). quick = the rule on the current tree; thorough = the same rule plus the sensitivity replay of the seeded changes recorded as caught by that check. Known genuine defects are listed in /verif/known_findings.json.",
 }
 with open(os.path.join(VERIF, "MANIFEST.json"), "w") as fh:
     json.dump(m, fh, indent=1)
